@@ -72,9 +72,8 @@ def dec (m : Mapper) (f : Facts) (hd : Hd) (its : List (Item J)) : J :=
   else .elem hd.tag v0 (decAttrs m hd) [] .null hd.xmlns
 
 /-- the loop of dataobjects.py:573-576: `content.append((e.tag, e))`, then the tail under the next number.
-    A child that is not a DataElement: the model describes the repaired behaviour (XMLSchemaTypeError,
-    notes/fixes/C05-dataelement-encode-type.patch); the unpatched code reads `e.tag` and leaks an
-    AttributeError that `raw_encode` does not catch (finding C05-F11). -/
+    A child that is not a DataElement: XMLSchemaTypeError (dataobjects.py:574-577, fix 40894cf of finding
+    C05-F11; before it the code read `e.tag` and leaked an AttributeError that `raw_encode` does not catch). -/
 def encKids : Nat → List J → Except Err (List (Item J))
   | _, [] => .ok []
   | k, e :: r =>
@@ -104,7 +103,7 @@ def enc (m : Mapper) (_f : Facts) (name : String) (obj : J) : Except Err (Hd × 
       else do
         let c ← encKids 2 kids
         pure ({ tag, text := none, attrs := attributes, xmlns }, .cdata 1 value :: c)
-  | _ => .error .typeErr      -- not a DataElement (repaired behaviour, see `encKids`; unpatched: AttributeError)
+  | _ => .error .typeErr      -- not a DataElement: XMLSchemaTypeError (dataobjects.py:557-559)
 
 def conv (m : Mapper) : Conv := ⟨dec m, enc m⟩
 
